@@ -13,6 +13,7 @@ mod chan_corrupt;
 mod chan_eid;
 mod chan_ffi;
 mod chan_hex;
+mod chan_id;
 mod chan_json;
 mod chan_now;
 mod chan_ops;
@@ -52,6 +53,9 @@ fn run_line(line: &str) -> String {
         "SCHED" => chan_now::sched(args),
         "VALIDATE" => chan_ops::validate(args),
         "OPS" => chan_ops::ops(args),
+        "ID" => chan_id::id(args),
+        "IDPAIR" => chan_id::idpair(args),
+        "IDREF" => chan_id::idref(args),
         "FFI" => chan_ffi::ffi(args),
         "ADMENC" => chan_adm::admenc(args),
         "ADMSPEC" => chan_adm::admspec(args),
